@@ -4,12 +4,17 @@
 //!   probe-thread free  <timeout_ms> <order f|r> <specs>
 //!   probe-thread hist  <timeout_ms> <reps> <log 0|1> <specs>
 //!   probe-thread fault <n>
+//!   probe-thread nest  <timeout_ms> <ty u64|box> <pad> <levels kind.op,...>   (nested spawning)
 //!   probe-thread race  <timeout_ms> <rounds> <batch> <gh> <gt> <hold_h> <maxskew> <spec>
 //!                      (SAMPLED gate-aligned race sweep, see ctl::race_gate)
 //!
 //! specs    = `type:outcome:op` joined by `,`
 //!            type    unit|u8|u64|a3|al64|big|box|str
 //!            outcome r (closure returns) | p (closure panics)
+//!                    | e / o (panics inside an argument of tiny_std::eprintln! / println!, i.e. while
+//!                      the macro holds the print lock) | m / w (panics while holding a tiny_std Mutex
+//!                      guard / RwLock write guard made in the closure)
+//!                    | E / P (prints a line with eprintln! / println!, then returns)
 //!            op      j join | d drop   (hist only: J join after the thread is gone,
 //!                    w join while the thread sleeps 1.5 ms, s ... 300 ms, e drop while the thread is held back,
 //!                    l drop after the thread is gone, x drop at once, unsynchronised)
@@ -27,7 +32,7 @@ mod sys;
 
 use alloc::boxed::Box;
 use alloc::string::String;
-use core::sync::atomic::{AtomicU32, Ordering::SeqCst};
+use core::sync::atomic::{AtomicU32, AtomicU64, Ordering::SeqCst};
 use tiny_std::thread::{spawn, JoinHandle};
 
 const MAXN: usize = ctl::MAXT;
@@ -73,7 +78,17 @@ enum Hd {
 struct Spec {
     ty: Ty,
     panics: bool,
+    kind: u8,
     op: u8,
+}
+
+/// Its Display impl panics: `eprintln!("{}", PanicsInDisplay(..))` panics while the macro holds its lock
+struct PanicsInDisplay(u64);
+
+impl core::fmt::Display for PanicsInDisplay {
+    fn fmt(&self, _f: &mut core::fmt::Formatter<'_>) -> core::fmt::Result {
+        panic!("probe: panic inside a print macro argument (thread tag {})", self.0);
+    }
 }
 
 // ---- result values: a function of the thread's tag, mirrored in steps_thread.py ----
@@ -147,7 +162,7 @@ fn effect_val(tag: u64) -> u64 {
 // ---- the closures ----
 
 /// hold: 0 run at once; 1 wait until main sets GO[slot]; 2 sleep 1.5 ms first
-fn body<T>(slot: usize, tag: u64, panics: bool, hold: u8, mk: fn(u64) -> T) -> T {
+fn body<T>(slot: usize, tag: u64, kind: u8, hold: u8, mk: fn(u64) -> T) -> T {
     CL_TID[slot].store(sys::gettid(), SeqCst);
     STARTED.fetch_add(1, SeqCst);
     if hold == 1 {
@@ -164,14 +179,40 @@ fn body<T>(slot: usize, tag: u64, panics: bool, hold: u8, mk: fn(u64) -> T) -> T
         let p = (core::ptr::addr_of_mut!(EFFECT) as *mut u64).add(slot);
         p.write(effect_val(tag));
     }
-    if panics {
-        panic!("probe: this closure panics");
+    match kind {
+        b'p' => panic!("probe: this closure panics"),
+        b'e' => {
+            // no literal text before the argument: nothing may reach the stream
+            tiny_std::eprintln!("{}", PanicsInDisplay(tag));
+            panic!("probe: unreachable");
+        }
+        b'o' => {
+            tiny_std::println!("{}", PanicsInDisplay(tag));
+            panic!("probe: unreachable");
+        }
+        b'm' => {
+            let mx = tiny_std::sync::Mutex::new(tag);
+            let g = mx.lock();
+            if *g == tag {
+                panic!("probe: panic while holding a mutex guard");
+            }
+        }
+        b'w' => {
+            let rw = tiny_std::sync::RwLock::new(tag);
+            let g = rw.write();
+            if *g == tag {
+                panic!("probe: panic while holding a write guard");
+            }
+        }
+        b'E' => tiny_std::eprintln!("# probe thread {} prints to stderr", tag),
+        b'P' => tiny_std::println!("# probe thread {} prints to stdout", tag),
+        _ => {}
     }
     mk(tag)
 }
 
 fn spawn_one(slot: usize, tag: u64, sp: Spec, hold: u8) -> tiny_std::Result<Hd> {
-    let p = sp.panics;
+    let p = sp.kind;
     RUNS[slot].store(0, SeqCst);
     CL_TID[slot].store(0, SeqCst);
     GO[slot].store(0, SeqCst);
@@ -273,18 +314,20 @@ fn parse_spec(s: &str) -> Option<Spec> {
         "str" => Ty::Str,
         _ => return None,
     };
-    let panics = match it.next()? {
-        "r" => false,
-        "p" => true,
-        _ => return None,
-    };
+    let kind = it.next()?.as_bytes();
+    if kind.len() != 1 || !b"rpeomwEP".contains(&kind[0]) {
+        return None;
+    }
+    let kind = kind[0];
+    let panics = b"peomw".contains(&kind);
     let op = it.next()?.as_bytes();
-    if op.len() != 1 || !b"jdJwselx".contains(&op[0]) {
+    if op.len() != 1 || !b"jdJwselxT".contains(&op[0]) {
         return None;
     }
     Some(Spec {
         ty,
         panics,
+        kind,
         op: op[0],
     })
 }
@@ -583,6 +626,18 @@ fn mode_hist(args: &[&str]) -> i32 {
                         }
                     }
                 }
+                b'T' => {
+                    // observation only: does this thread finish at all (within 0.5 s)?
+                    if wait_started_and_gone(slot, 500_000) {
+                        do_join(ordinal, slot, h);
+                    } else {
+                        out::line("stillrunning", &[ordinal as u64]);
+                        core::mem::forget(h);
+                        out::s("done\n");
+                        out::flush();
+                        sys::exit_group(0);
+                    }
+                }
                 b'J' => {
                     if !wait_started_and_gone(slot, tmo_us) {
                         hangs += 1;
@@ -695,6 +750,7 @@ fn mode_fault(args: &[&str]) -> i32 {
     let sp = Spec {
         ty: Ty::U64,
         panics: false,
+        kind: b'r',
         op: b'j',
     };
     let mut hs: [Option<Hd>; MAXSPEC] = [const { None }; MAXSPEC];
@@ -814,6 +870,281 @@ fn mode_race(args: &[&str]) -> i32 {
     0
 }
 
+
+// ---- nested spawning: a spawned thread is itself the handle owner of another thread ----
+
+#[derive(Copy, Clone)]
+struct Lv {
+    kind: u8, // r | p : what this level's closure does after reaping its child
+    op: u8,   // what the PARENT does with this level's handle: j join | l drop after it is gone |
+              // e drop while it is held back | x drop at once | f the spawn is expected to fail (injection)
+}
+
+static mut NEST: [Lv; 8] = [Lv { kind: b'r', op: b'j' }; 8];
+static NEST_DEPTH: AtomicU32 = AtomicU32::new(0);
+static NEST_PAD: AtomicU32 = AtomicU32::new(0);
+static NEST_TMO_US: AtomicU64 = AtomicU64::new(3_000_000);
+static NEXT_SLOT: AtomicU32 = AtomicU32::new(0);
+/// guard mode (second run after a hang): before joining / dropping a finished child, look whether the
+/// kernel cleared its exit word; if the thread is gone and the word still reads 1 the operation would
+/// wait for ever - it is skipped (handle forgotten) and reported, so that the rest can be accounted
+static NEST_GUARD: AtomicU32 = AtomicU32::new(0);
+static N_NOTCLEARED: [AtomicU32; MAXN] = [const { AtomicU32::new(0) }; MAXN];
+/// 0 not spawned, 1 Ok, 2 Err (errno in N_ERRNO)
+static N_SPAWN: [AtomicU32; MAXN] = [const { AtomicU32::new(0) }; MAXN];
+static N_ERRNO: [AtomicU32; MAXN] = [const { AtomicU32::new(0) }; MAXN];
+/// 0 nothing, 1 joined Some, 2 joined None, 3 dropped
+static N_JOIN: [AtomicU32; MAXN] = [const { AtomicU32::new(0) }; MAXN];
+static N_DIGEST: [AtomicU64; MAXN] = [const { AtomicU64::new(0) }; MAXN];
+static N_EFFECT: [AtomicU64; MAXN] = [const { AtomicU64::new(0) }; MAXN];
+static N_RUNS: [AtomicU32; MAXN] = [const { AtomicU32::new(0) }; MAXN];
+
+trait NV: Send + Sized + 'static {
+    fn mk(t: u64) -> Self;
+    fn digest(&self) -> u64;
+}
+impl NV for u64 {
+    fn mk(t: u64) -> Self {
+        mk_u64(t)
+    }
+    fn digest(&self) -> u64 {
+        fnv(&self.to_le_bytes(), FNV0)
+    }
+}
+impl NV for Box<u64> {
+    fn mk(t: u64) -> Self {
+        mk_box(t)
+    }
+    fn digest(&self) -> u64 {
+        fnv(&(**self).to_le_bytes(), FNV0)
+    }
+}
+
+fn nest_level(level: usize) -> Lv {
+    unsafe { (*core::ptr::addr_of!(NEST))[level] }
+}
+
+fn reset_slot(slot: usize) {
+    RUNS[slot].store(0, SeqCst);
+    CL_TID[slot].store(0, SeqCst);
+    GO[slot].store(0, SeqCst);
+    unsafe {
+        (core::ptr::addr_of_mut!(EFFECT) as *mut u64).add(slot).write(0);
+    }
+}
+
+fn record_join<T: NV>(slot: usize, r: Option<T>) {
+    // what the joining thread sees right after join returned
+    N_EFFECT[slot].store(effect_of(slot), SeqCst);
+    N_RUNS[slot].store(RUNS[slot].load(SeqCst), SeqCst);
+    match r {
+        Some(v) => {
+            N_DIGEST[slot].store(v.digest(), SeqCst);
+            N_JOIN[slot].store(1, SeqCst);
+        }
+        None => N_JOIN[slot].store(2, SeqCst),
+    }
+}
+
+/// Spawn the thread of `level` and do to its handle what its level says.  Runs on main
+/// (level 0) or on the thread of level - 1.
+fn nest_spawn<T: NV>(level: usize) {
+    let lv = nest_level(level);
+    let tmo = NEST_TMO_US.load(SeqCst);
+    if lv.op == b'f' {
+        // make the calls that will be failed unmistakable by their per-thread position:
+        // a few mmaps and a few successful spawns of this thread's own first
+        let pad = NEST_PAD.load(SeqCst);
+        for _ in 0..pad {
+            sys::dummy_map();
+        }
+        for _ in 0..pad {
+            let slot = NEXT_SLOT.fetch_add(1, SeqCst) as usize;
+            reset_slot(slot);
+            match spawn(move || body(slot, slot as u64, b'r', 0, mk_u64)) {
+                Ok(h) => {
+                    N_SPAWN[slot].store(1, SeqCst);
+                    sys::marker(0x1000 + slot * 16 + 1);
+                    let r = h.join();
+                    sys::marker(0x1000 + slot * 16 + 2);
+                    record_join(slot, r);
+                }
+                Err(_) => N_SPAWN[slot].store(2, SeqCst),
+            }
+        }
+    }
+    let slot = NEXT_SLOT.fetch_add(1, SeqCst) as usize;
+    reset_slot(slot);
+    let hold = u8::from(lv.op == b'e');
+    let h = match spawn(move || nest_body::<T>(slot, level, hold)) {
+        Ok(h) => h,
+        Err(e) => {
+            let code = match e {
+                tiny_std::Error::Os { code, .. } => code.raw() as u32,
+                _ => 0,
+            };
+            N_ERRNO[slot].store(code, SeqCst);
+            N_SPAWN[slot].store(2, SeqCst);
+            return;
+        }
+    };
+    N_SPAWN[slot].store(1, SeqCst);
+    if NEST_GUARD.load(SeqCst) != 0 && (lv.op == b'j' || lv.op == b'l' || lv.op == b'f') {
+        let gone = wait_started_and_gone(slot, tmo);
+        let block = ctl::block_of(slot);
+        let word = if block != 0 {
+            unsafe { ((block + 4) as *const u32).read_volatile() }
+        } else {
+            0
+        };
+        if !gone || word != 0 {
+            N_NOTCLEARED[slot].store(if gone { 1 } else { 2 }, SeqCst);
+            core::mem::forget(h);
+            return;
+        }
+    }
+    match lv.op {
+        b'l' => {
+            let _ = wait_started_and_gone(slot, tmo);
+            sys::marker(0x1000 + slot * 16 + 3);
+            drop(h);
+            sys::marker(0x1000 + slot * 16 + 4);
+            N_JOIN[slot].store(3, SeqCst);
+        }
+        b'e' => {
+            let t0 = sys::now_us();
+            while CL_TID[slot].load(SeqCst) == 0 && sys::now_us() - t0 < tmo {
+                sys::sched_yield();
+            }
+            drop(h);
+            N_JOIN[slot].store(3, SeqCst);
+            GO[slot].store(1, SeqCst);
+            sys::futex_wake_all(&GO[slot]);
+        }
+        b'x' => {
+            drop(h);
+            N_JOIN[slot].store(3, SeqCst);
+        }
+        _ => {
+            // j, and f when the spawn was not failed after all (fault-free reference run)
+            sys::marker(0x1000 + slot * 16 + 1);
+            let r = h.join();
+            sys::marker(0x1000 + slot * 16 + 2);
+            record_join(slot, r);
+        }
+    }
+}
+
+fn nest_body<T: NV>(slot: usize, level: usize, hold: u8) -> T {
+    CL_TID[slot].store(sys::gettid(), SeqCst);
+    STARTED.fetch_add(1, SeqCst);
+    if hold == 1 {
+        while GO[slot].load(SeqCst) == 0 {
+            sys::futex_wait_timeout(&GO[slot], 0, 1000);
+        }
+    }
+    RUNS[slot].fetch_add(1, SeqCst);
+    unsafe {
+        let p = (core::ptr::addr_of_mut!(EFFECT) as *mut u64).add(slot);
+        p.write(effect_val(slot as u64));
+    }
+    if level + 1 < NEST_DEPTH.load(SeqCst) as usize {
+        nest_spawn::<T>(level + 1);
+    }
+    if nest_level(level).kind == b'p' {
+        panic!("probe: nested closure panics after reaping its child");
+    }
+    T::mk(slot as u64)
+}
+
+/// probe-thread nest <timeout_ms> <ty u64|box> <pad> <levels> [guard]   levels = `kind.op` joined by `,`
+fn mode_nest(args: &[&str]) -> i32 {
+    if args.len() != 4 && args.len() != 5 {
+        return usage();
+    }
+    if args.len() == 5 {
+        NEST_GUARD.store(1, SeqCst);
+    }
+    let (Some(tmo), Some(pad)) = (ctl::parse_u(args[0]), ctl::parse_u(args[2])) else {
+        return usage();
+    };
+    let mut depth = 0usize;
+    for part in args[3].split(',') {
+        let b = part.as_bytes();
+        if b.len() != 3 || b[1] != b'.' || depth >= 8 || !b"rp".contains(&b[0]) || !b"jlexf".contains(&b[2]) {
+            return usage();
+        }
+        unsafe {
+            (*core::ptr::addr_of_mut!(NEST))[depth] = Lv { kind: b[0], op: b[2] };
+        }
+        depth += 1;
+    }
+    if depth == 0 {
+        return usage();
+    }
+    NEST_DEPTH.store(depth as u32, SeqCst);
+    NEST_PAD.store(pad as u32, SeqCst);
+    NEST_TMO_US.store(tmo * 1000, SeqCst);
+    ctl::TIMEOUT_US.store(tmo * 1000, SeqCst);
+    // a handle operation that never returns ends the probe with SIGALRM
+    sys::alarm(2 * tmo / 1000 + 3);
+    out::UNBUFFERED.store(true, SeqCst);
+    out::s("mode nest\n");
+    out::line("main_tid", &[ctl::MAIN_TID.load(SeqCst) as u64]);
+    snapshot("base", Some("maps0"));
+    galloc::configure(true, true);
+    tiny_std::verif::set_gate_fn(Some(ctl::gate)); // record-only
+    match args[1] {
+        "u64" => nest_spawn::<u64>(0),
+        "box" => nest_spawn::<Box<u64>>(0),
+        _ => return usage(),
+    }
+    // every thread that was created must have started and gone (a child dropped at once may start late)
+    let mut k = 0;
+    while k < NEXT_SLOT.load(SeqCst) as usize {
+        if N_SPAWN[k].load(SeqCst) == 1 {
+            let _ = wait_started_and_gone(k, tmo * 1000);
+        }
+        k += 1;
+    }
+    let alive = ctl::wait_all_gone(tmo * 1000);
+    tiny_std::verif::set_gate_fn(None);
+    let n = NEXT_SLOT.load(SeqCst) as usize;
+    for slot in 0..n {
+        match N_SPAWN[slot].load(SeqCst) {
+            1 => out::line("spawn", &[slot as u64, 1]),
+            2 => out::line("spawn", &[slot as u64, 0, N_ERRNO[slot].load(SeqCst) as u64]),
+            _ => {}
+        }
+        match N_NOTCLEARED[slot].load(SeqCst) {
+            1 => out::line("notcleared", &[slot as u64]),
+            2 => out::line("notgone", &[slot as u64]),
+            _ => {}
+        }
+        match N_JOIN[slot].load(SeqCst) {
+            k @ (1 | 2) => {
+                out::s("join ");
+                out::u(slot as u64);
+                if k == 1 {
+                    out::s(" some ");
+                    out::x(N_DIGEST[slot].load(SeqCst));
+                } else {
+                    out::s(" none 0");
+                }
+                out::s(" effect ");
+                out::x(N_EFFECT[slot].load(SeqCst));
+                out::s(" runs ");
+                out::u(N_RUNS[slot].load(SeqCst) as u64);
+                out::nl();
+            }
+            3 => out::line("drop", &[slot as u64]),
+            _ => {}
+        }
+    }
+    final_report(alive);
+    0
+}
+
 #[no_mangle]
 pub fn main() -> i32 {
     ctl::init();
@@ -834,6 +1165,7 @@ pub fn main() -> i32 {
         "hist" => mode_hist(&argv[1..n]),
         "fault" => mode_fault(&argv[1..n]),
         "race" => mode_race(&argv[1..n]),
+        "nest" => mode_nest(&argv[1..n]),
         _ => usage(),
     };
     // leave with exit_group: never hang on a stray thread
